@@ -14,7 +14,7 @@
     pattern_matches_eq_xp
     parser_accepts_subset_partial parser_accepts_steps_partial
     parse_print_tokens tokenize_print parse_print parser_accepts_subset select_text_eq_xp
-    select_text_eq_xp_nonpositional numOk_iff
+    select_text_eq_xp_nonpositional numOk_iff parse_print_abbrev select_text_abbrev_eq_xp
 -/
 import Genshi.Model.Path
 import Genshi.Model.PathParse
@@ -30,6 +30,7 @@ import Genshi.Lemmas.PathParseSteps
 import Genshi.Lemmas.PathPrintPath
 import Genshi.Lemmas.PathPrintTok
 import Genshi.Lemmas.PathPrintNum
+import Genshi.Lemmas.PathPrintAbbr
 import Genshi.Lemmas.PathChildPath
 import Genshi.Lemmas.PathUnion
 import Genshi.Lemmas.PathNonPos
@@ -1246,5 +1247,26 @@ theorem select_text_eq_xp_nonpositional (p : LocPath) (hok : Print.pathsOk [p] =
     selectText (Print.printPaths [p]) ns vs (Node.elem tag attrs kids).flatten
       = .ok (Ref.xpSelect [p] ns (toXVars vs) (.elem tag attrs kids)) :=
   select_text_eq_xp [p] hok ns vs _ (select_eq_xp_nonpositional_default p ns vs hp h2 hs tag attrs kids hcl hnodes)
+
+/-- **The abbreviated spelling.**  `Print.printPathsA` writes the steps the way people do — `a` for
+    `child::a`, `@x` for `attribute::x` (`text()`, `p:*`, … likewise), the other axes as `axis::` — and
+    the same holds on the same domain: tokenizer and parser read the printed text back as exactly
+    the AST.  (`.` and `//` remain the parser's own expansions `self::node()` and
+    `descendant-or-self::node()`, which this printer spells out; predicate-free paths with `.` and
+    `//` written as such are `parser_accepts_steps_partial`.) -/
+theorem parse_print_abbrev (ps : List LocPath) (h : Print.pathsOk ps = true) :
+    parse (Print.printPathsA ps) = .ok ps :=
+  Print.parse_printA ps h
+
+example : Print.printPathsA printDemo =
+    "a [ ( @ x or @ y ) and @ z = 1.50 ] [ not ( @ a < ( 1 < 2 ) ) ] / descendant :: text () [ 2 ] | @ p : *".toList := by
+  decide +kernel
+example : parse (Print.printPathsA printDemo) = .ok printDemo := parse_print_abbrev _ (by decide +kernel)
+
+/-- `select_eq_xp` for the abbreviated text -/
+theorem select_text_abbrev_eq_xp (ps : List LocPath) (hok : Print.pathsOk ps = true) (ns : NsMap) (vs : Vars)
+    (root : Node) (h : select ps ns vs root.flatten = Ref.xpSelect ps ns (toXVars vs) root) :
+    selectText (Print.printPathsA ps) ns vs root.flatten = .ok (Ref.xpSelect ps ns (toXVars vs) root) := by
+  simp only [selectText, parse_print_abbrev ps hok, h]
 
 end Genshi.Props.C05
